@@ -147,7 +147,7 @@ Definition reg_agree (c : regcase) : bool :=
 (* Tucker / HOOI: factors before and after one HOOI block (identity on undecomposed modes), the implementation's core computed from
    the factors after the block: the model core is the implementation's, the factors have orthonormal columns, the identity
    ||X - core x U||^2 = ||X||^2 - ||core||^2 holds on the instance, and the exact Tucker objective does not increase over the block *)
-Record tkcase := mkTk { t_X : tensor Q; t_rs : list nat; t_before : list qmat; t_after : list qmat; t_core : list Q }.
+Record tkcase := mkTk { t_X : tensor Q; t_rs : list nat; t_before : list qmat; t_after : list qmat; t_core : list Q; t_k : nat; t_Y : qmat }.
 Fixpoint orth_defect_ok (s rs : list nat) (Us : list qmat) : bool :=
   match s, rs, Us with
   | d :: s', r :: rs', U :: Us' =>
@@ -168,7 +168,14 @@ Definition tk_agree (c : tkcase) : bool :=
   Nat.eqb (length (t_core c)) (prod rs) &&
   forall_lt (prod rs) (fun q => qle (Qabs (nth q core 0 - nth q (t_core c) 0)) (tol_match * cscale + atol_tiny)) &&
   qle (Qabs (obj_after - (normX2 - tk_core_norm2 Qops X rs (t_after c)))) (tol_cert * normX2) &&
-  qle obj_after (obj_before + tol_cert * normX2).
+  qle obj_after (obj_before + tol_cert * normX2) &&
+  (* the matrix the implementation handed to the SVD of this block is the model's mode-k unfolding of X x_{j<>k} U_j'
+     (unfold_k of Proofs/DescentProofsUnfold.v: the core with the unit vector e_i in place of factor k, core index 0 in mode k) *)
+  (let k := t_k c in let d := nth k (shape X) 0%nat in let rs' := set_nth k 1%nat rs in
+   let yscale := qsumabs d (fun i => qsumabs (prod rs') (fun cc => mget Qops (t_Y c) i cc)) in
+   forall_lt d (fun i => forall_lt (prod rs') (fun cc =>
+     qle (Qabs (tk_core_at Qops X (set_nth k (unit_mat Qops d 1 i 0) (t_before c)) (unravel rs' cc) - mget Qops (t_Y c) i cc))
+         (tol_match * yscale + atol_tiny)))).
 
 (* coupled block of CMTF: state before the block, V, the implementation's new coupled factor: normal equations of the MODEL system
    G + V'V against MTTKRP + Y V, exact coupled objective does not increase *)
